@@ -196,3 +196,39 @@ PROPS["C11"] = {
     "thorough": {"stages": [{"kind": "replay"}, {"kind": "rc", "procs": 16, "cases": 200000, "maxlen": 260},
                             {"kind": "fuzz", "workers": 16, "seconds": 200, "maxlen": 260}]},
 }
+
+
+def _enum_jobs(configs, max_sched, depth=2, base=4):
+    """partition each configuration's schedule tree by its first `depth` choices"""
+    import itertools
+    jobs = []
+    for cfg in configs:
+        for forced in itertools.product(range(base), repeat=depth):
+            jobs.append(list(cfg) + [max_sched] + list(forced))
+    return jobs
+
+
+PROPS["C13"] = {
+    "source": "c13_queue.cc",
+    "level": "exploration",
+    "fuzz": False,
+    "rule": ("the case is a thread schedule: p producers (k pushes each, items tagged producer/index) and one consumer modelled as the event loop (wait until the queue's eventfd is "
+             "readable, drain with popSafe() until empty; 0-1 early polls before anything was pushed) run as real threads under a cooperative scheduler that switches only at the five hook "
+             "points (before the head exchange, before the link store, before the eventfd write, before the tail->next load, before the eventfd drain). Depth-first enumeration of ALL "
+             "schedules for 1x1, 1x2, 1x3, 2x1 (with and without an early poll), partitioned over processes by the first two choices; generated schedules (choice stream = which runnable "
+             "thread continues) for 1..3 x 1..3. Oracle per schedule: multiset popped = pushed, per-producer order, and no state where the consumer waits for the eventfd with items queued "
+             "and all producers finished (missed wake-up). Non-trivial = a producer step lands between two consumer steps of one drain; distinct = hash of (configuration, choice string)."),
+    "engine": "cooperative scheduler (harness/common/sched.h) + rapidcheck",
+    "technique": "systematic schedule enumeration (stateless depth-first search over a harness-owned cooperative scheduler at the hook points) plus rapidcheck-generated schedules; oracle = history invariants (multiset, per-producer order, no missed wake-up)",
+    "level_text": "Every sequentially consistent interleaving at hook-point granularity is executed for the small configurations (exhaustive: true refers to those); larger configurations are sampled. Real code, real eventfd/epoll objects.",
+    "level_note": "Sequentially consistent interleavings only, at the granularity of the five hook points (what the property quantifies over); weak-memory effects are not explored. Needs the PISTACHE_VERIF_HOOKS yield points in mailbox.h.",
+    "assumptions": ["the five yield points are the only accesses to state shared between producer and consumer", "poll(eventfd, 0) is the readiness the event loop would see (level-triggered registration)"],
+    "quick": {"stages": [{"kind": "replay"},
+                         {"kind": "enum", "scope": "all schedules of 1x1, 1x2, 1x3, 2x1 with 0 and 1 early poll (2x1+early-poll capped at 400000 schedules per partition)",
+                          "jobs": _enum_jobs([(1, 1, 0), (1, 1, 1), (1, 2, 0), (1, 2, 1), (1, 3, 0), (2, 1, 0), (2, 1, 1)], 400000)},
+                         {"kind": "rc", "procs": 4, "cases": 6000, "maxlen": 200}]},
+    "thorough": {"stages": [{"kind": "replay"},
+                            {"kind": "enum", "scope": "all schedules of 1x1..1x3, 2x1, 2x2, 3x1 with 0 and 1 early poll (capped at 3000000 schedules per partition)",
+                             "jobs": _enum_jobs([(1, 1, 0), (1, 1, 1), (1, 2, 0), (1, 2, 1), (1, 3, 0), (1, 3, 1), (2, 1, 0), (2, 1, 1), (2, 2, 0), (3, 1, 0)], 3000000)},
+                            {"kind": "rc", "procs": 8, "cases": 100000, "maxlen": 300}]},
+}
